@@ -126,9 +126,19 @@ func (in *Interp) intrinsic(caller *frame, name string, args []value, pos token.
 	case "SymbolicMapOrder":
 		in.symMapOrder = args[0].(*Term).IsTrue()
 		return nil
-	case "FullRangeKeys":
-		in.fullRange = args[0].(*Term).IsTrue()
+	case "KeyLeadingZeros":
+		in.maxLZ = in.concreteInt(args[0], "max leading zero bytes")
 		return nil
+	case "LeadingZerosOK":
+		// symbolic run: always true; the byte terms are recorded so that the native replay can search for
+		// a key / signature with the same number of leading zero bytes as in the solver's model
+		s := args[1].(*Slice)
+		ts := make([]*Term, len(s.Data))
+		for i, b := range s.Data {
+			ts[i] = b.(*Term)
+		}
+		in.addInput(in.argStr(args[0]), "lz", ts...)
+		return tTrue
 	case "IgnorePanics":
 		in.expectPanic = true
 		return nil
